@@ -116,7 +116,7 @@ FAULTS = [None] + [(k, e) for k in (1, 2, 3, 6) for e in ('Custom', 'RuntimeErro
 
 def limits(tier):
     hi = 140 if tier == 'quick' else 460
-    return list(range(60, hi + 1)) + [500, 600, 700, 800, 900, 1000]
+    return list(range(60, hi + 1)) + [400, 450, 500, 600, 700, 800, 900, 1000]
 
 
 BLOCK = 12
@@ -161,7 +161,7 @@ def setup(tier, seed):
     return {'real': real, 'tier': tier, 'limits': limits(tier), 'expected': exp}
 
 
-def child(ctx, prog, limit, fault, hold, nested=False, gv_proj=False):
+def child(ctx, prog, limit, fault, hold, nested=False, gv_proj=False, raise_limit=False):
     """runs in a forked child; returns a JSON-able dict"""
     real = ctx['real']
     E = real.E
@@ -212,7 +212,10 @@ def child(ctx, prog, limit, fault, hold, nested=False, gv_proj=False):
     real.unr.take()
     # the interpreter's limit before the call is not always the default
     base = 1000 if limit % 3 else (940 if limit % 2 else 870)
-    if base > limit + 50:
+    if raise_limit and limit >= 400:
+        # the requested limit is ABOVE the interpreter's current one: evaluate_bounded must raise it for the call
+        orig_set(limit - 250)
+    elif base > limit + 50:
         orig_set(base)
     before_limit = sys.getrecursionlimit()
     pre_bound = len(real.reg.bound())
@@ -324,7 +327,7 @@ def run_forked(ctx, prog, jobs, timeout=60):
             out = []
             for job in jobs:
                 limit, fault, hold = job[0], job[1], job[2]
-                o = child(ctx, prog, limit, fault, hold, nested=(len(job) > 3 and job[3]), gv_proj=(len(job) > 4 and job[4]))
+                o = child(ctx, prog, limit, fault, hold, nested=(len(job) > 3 and job[3]), gv_proj=(len(job) > 4 and job[4]), raise_limit=(len(job) > 5 and job[5]))
                 out.append(o)
                 if o['after_limit'] != o['before_limit'] or o['bound_after'] > 0:
                     break
@@ -412,7 +415,7 @@ def run_case(ctx, seed, idx, tier):
         rng = random.Random((seed * 1000003 + idx) * 7 + 17 + limit * 1009)
         fault = rng.choice(FAULTS[1:]) if rng.random() < 0.6 else None
         hold = rng.random() < 0.4
-        jobs.append((limit, fault, hold, rng.random() < 0.2, rng.random() < 0.35))
+        jobs.append((limit, fault, hold, rng.random() < 0.2, rng.random() < 0.35, rng.random() < 0.5))
     r = run_forked(ctx, prog, jobs)
     c0 = {'forked_children': 1}
     if r.get('timeout') or r.get('died') or 'crash' in r:
@@ -440,14 +443,17 @@ def judge(ctx, prog, job, r, idx):
     limit, fault, hold = job[0], job[1], job[2]
     nested = len(job) > 3 and job[3]
     gv_proj = len(job) > 4 and job[4]
+    raise_limit = len(job) > 5 and job[5] and limit >= 400
     c = {'cases': 1}
+    if raise_limit:
+        c['limit_above_interpreter_limit'] = 1
     if gv_proj:
         c['projection_uses_get_value'] = 1
     if nested:
         c['nested_evaluate_bounded'] = 1
     w = {'program': rprogram(prog[1]), 'name': prog[0], 'query': '%s(%s)' % (prog[2], ','.join(rterm(a) for a in prog[3])),
-         'limit': limit, 'fault': fault, 'hold_generator': hold, 'idx': idx, 'nested': nested, 'gv_proj': gv_proj}
-    key = (prog[0], limit, fault, hold, nested, gv_proj)
+         'limit': limit, 'fault': fault, 'hold_generator': hold, 'idx': idx, 'nested': nested, 'gv_proj': gv_proj, 'raise_limit': raise_limit}
+    key = (prog[0], limit, fault, hold, nested, gv_proj, raise_limit)
     expd = ctx['expected'][prog[0]]
     if prog[0] == 'leftrec' and 'discard' in expd:
         expd = {'answers': []}     # by construction: infinite left recursion before any answer
@@ -511,6 +517,10 @@ def judge(ctx, prog, job, r, idx):
         return viol('nested_evaluate_bounded_wrong_result', {'inner_results': o['inner_results']})
     if not o['trace'] or o['trace'][0] != limit or o['trace'][-1] != o['before_limit']:
         return viol('unexpected_setrecursionlimit_trace', {'trace': o['trace'], 'limit': limit, 'before': o['before_limit']})
+    if o.get('needed_gc'):
+        # CPython finalises the abandoned search when evaluate_bounded returns (reference counting); the unchanged tree
+        # never needs a garbage collection pass for that, so needing one means something keeps the search alive
+        return viol('variables_unbound_only_after_a_gc_pass', {'bound_after_gc': o['bound_after']})
     if o['bound_after'] > 0 or not o['query_vars_unbound']:
         return viol('variables_left_bound', {'bound_after': o['bound_after'], 'query_vars_unbound': o['query_vars_unbound'],
                                              'needed_gc': o.get('needed_gc', False)})
@@ -544,5 +554,5 @@ def dstat_answers(direct, dstat, exp):
 def replay(ctx, w):
     prog = [p for p in progs() if p[0] == w['name']][0]
     fault = tuple(w['fault']) if w['fault'] else None
-    job = (w['limit'], fault, w['hold_generator'], w.get('nested', False), w.get('gv_proj', False))
+    job = (w['limit'], fault, w['hold_generator'], w.get('nested', False), w.get('gv_proj', False), w.get('raise_limit', False))
     return judge(ctx, prog, job, run_forked(ctx, prog, [job]), w.get('idx', 0))
